@@ -32,17 +32,20 @@ Definition point_ok (ek0 ek1 : Q) (n k : nat) (periodic : bool) (tol : Q) (p : c
 Inductive c03case :=
 | CBasis (ek0 ek1 : Z * Z) (n k : nat) (periodic : bool) (tol : Q) (pts : list c03point)
     (* b_spline_basis(x, [ek0, ek1], n, k, periodic) *)
-| CTerm (train : list (Z * Z)) (categorical : bool) (ek : (Z * Z) * (Z * Z)) (n k : nat) (periodic : bool) (tol : Q)
-        (pts : list c03point).
-    (* SplineTerm(...).compile(train column).build_columns(X): edge knots from gen_edge_knots, compared exactly *)
+| CTerm (hist : list (list (Z * Z))) (user : option ((Z * Z) * (Z * Z))) (categorical : bool) (ek : (Z * Z) * (Z * Z))
+        (n k : nat) (periodic : bool) (tol : Q) (pts : list c03point).
+    (* SplineTerm(..., edge_knots=user) compiled on the columns of hist in order (the last one is the training column),
+       then build_columns(X): the edge knots after the last compile (spline_compile_history) are compared exactly with the
+       implementation's edge_knots_, the rows against the model with those knots *)
 
 Definition Qeqb (a b : Q) : bool := Qle_bool a b && Qle_bool b a.
+Definition Qpair (p : (Z * Z) * (Z * Z)) : Q * Q := (Qof (fst p), Qof (snd p)).
 Definition check_case (c : c03case) : bool :=
   match c with
   | CBasis ek0 ek1 n k periodic tol pts =>
       forallb (point_ok (Qof ek0) (Qof ek1) n k periodic tol) pts
-  | CTerm train cat ek n k periodic tol pts =>
-      match gen_edge_knots Qfops cat (map Qof train) with
+  | CTerm hist user cat ek n k periodic tol pts =>
+      match spline_compile_history Qfops (option_map Qpair user) cat (map (map Qof) hist) with
       | Some (lo, hi) =>
           Qeqb lo (Qof (fst ek)) && Qeqb hi (Qof (snd ek)) &&
           forallb (point_ok lo hi n k periodic tol) pts
